@@ -360,8 +360,9 @@ class Ctx:
         self._record_violation(ob)
 
     # ------------------------------------------------------------------ violations / known
-    def _record_violation(self, ob):
-        for k in self.known:
+    def _record_violation(self, ob, classify=True):
+        """classify=False: the caller has already decided that this failure is NOT covered by a known finding."""
+        for k in (self.known if classify else []):
             if k.get('status') != 'known':
                 continue
             if re.search(k['obligation'], ob.name):
@@ -380,7 +381,9 @@ class Ctx:
 
     # ------------------------------------------------------------------ wrap-up
     def finish(self, explanation, checker_cmd, trusted_base, extra=None):
-        complete = [o for o in self.obligations if o.kind == 'complete']
+        kf_names = set(ob.name for _, ob in self.known_hits)
+        known_obs = [o for o in self.obligations if o.name in kf_names or o.detail.startswith('KNOWN FINDING')]
+        complete = [o for o in self.obligations if o.kind == 'complete' and o not in known_obs]
         bounded = [o for o in self.obligations if o.kind != 'complete']
         cov = dict(
             obligations=len(complete),
@@ -392,7 +395,9 @@ class Ctx:
             obligations_by_backend={b: len([o for o in complete if o.backend == b]) for b in sorted(set(o.backend for o in complete))},
             bounded_checks=[o.to_json() for o in bounded],
             bounded_checks_note='bounded stand-ins are listed here and are NOT counted in obligations/discharged',
-            failed=[o.to_json() for o in self.obligations if o.status == 'failed'],
+            failed=[o.to_json() for o in self.obligations if o.status == 'failed' and o not in known_obs],
+            known_finding_obligations=[o.to_json() for o in known_obs],
+            known_finding_note='obligations that fail exactly as recorded in /verif/known_findings.json are listed here and are not counted in obligations/discharged',
             undecided=self.undecided,
             seconds_by_backend={k: round(v, 2) for k, v in self.backends_s.items()},
             extraction=sorted(set(self.extraction)),
